@@ -20,9 +20,11 @@ func unsup(format string, a ...interface{}) { panic(unsupported{fmt.Sprintf(form
 
 // epoch identifies the "initial" value of heap names not yet touched.
 type epoch struct {
-	id   int
-	cond string
-	l, r *epoch
+	id     int
+	cond   string
+	l, r   *epoch
+	keep   []string // heap-name prefixes whose values are inherited from parent
+	parent *epoch
 }
 
 type FnCtx struct {
@@ -60,6 +62,7 @@ type FnCtx struct {
 	havocAllSeen  bool
 	ghostDefs     map[string]bool
 	nq            int
+	loopHead      map[*ssa.BasicBlock]*State
 	modTargets    []modTarget
 	modDeferred   []string
 	poolVals      map[string]bool
@@ -67,6 +70,7 @@ type FnCtx struct {
 	nonNil        map[string]bool
 	cellSeq       map[string]int
 	curBlock      *ssa.BasicBlock
+	curReach      string
 	tagTypes      map[int]types.Type
 }
 
@@ -288,7 +292,7 @@ func (fc *FnCtx) load(st *State, a *Addr) Val {
 		return fc.loadLoc(st, loc{name: lname(base, suffix), idx: idx, sort: sort, t: t})
 	})
 	fc.sc.assume(fc.typeInv(st, v))
-	if v.K == KFunc && a.Kind == AObj && len(a.Path) > 0 {
+	if (v.K == KFunc || (v.K == KInt && isChan(v.T))) && a.Kind == AObj && len(a.Path) > 0 {
 		t := a.Root
 		var owner *types.Named
 		fname := ""
@@ -315,10 +319,13 @@ func (fc *FnCtx) load(st *State, a *Addr) Val {
 	if a.Kind == AGlobal && len(a.Path) == 0 && v.K == KIface && fc.eng.initStored[a.Global] && !fc.eng.mutableGlobal[a.Global] {
 		// A-INIT: package initialisers ran; sentinel values are non-nil and pairwise distinct
 		fc.assumption("A-INIT: package-level sentinel values are initialised, non-nil and pairwise distinct")
-		fc.sc.assume(tAnd(tNot(tEq(v.Tag, "0")), tEq(v.S, num(int64(tagID("global:"+a.Global.String()))))))
+		// sentinel payloads are negative: distinct from each other and from every object reference
+		fc.sc.assume(tAnd(tNot(tEq(v.Tag, "0")), tEq(v.S, num(-int64(tagID("global:"+a.Global.String()))))))
 	}
 	return v
 }
+
+func isChan(t types.Type) bool { _, ok := t.Underlying().(*types.Chan); return ok }
 
 func (fc *FnCtx) store(st *State, a *Addr, v Val) {
 	switch a.Kind {
@@ -510,6 +517,13 @@ func (fc *FnCtx) nameVal(v Val, hint string) Val {
 }
 
 func (fc *FnCtx) epochTerm(e *epoch, name, sort string) string {
+	if e.parent != nil {
+		for _, p := range e.keep {
+			if strings.HasPrefix(name, p) {
+				return fc.epochTerm(e.parent, name, sort)
+			}
+		}
+	}
 	if e.l == nil {
 		c := fmt.Sprintf("%s@%d", sanitize(name), e.id)
 		fc.sc.declare(c, sort)
@@ -738,6 +752,10 @@ func (fc *FnCtx) execBody(fr *Frame, st *State, reach string) (Val, string) {
 				cur[p] = fr.vals[p]
 			}
 			fc.assumeInvariants(fr, b, li, bst, breach, cur, entryVals, phis)
+			if fc.loopHead == nil {
+				fc.loopHead = map[*ssa.BasicBlock]*State{}
+			}
+			fc.loopHead[b] = bst.clone()
 		} else {
 			for _, p := range phis {
 				v := phiAt(edges[len(edges)-1], p)
@@ -778,6 +796,7 @@ func (fc *FnCtx) execBody(fr *Frame, st *State, reach string) (Val, string) {
 			case *ssa.Panic:
 				fc.oblige(fr, "panic", fc.panicText(fr, t), breach, "false", false, nil)
 			default:
+				fc.curReach = breach
 				fc.execInstr(fr, bst, breach, ins)
 			}
 		}
@@ -835,7 +854,6 @@ type outEdge struct {
 	st    *State
 }
 
-
 func (fc *FnCtx) panicText(fr *Frame, p *ssa.Panic) string {
 	switch x := p.X.(type) {
 	case *ssa.MakeInterface:
@@ -892,19 +910,28 @@ func (fc *FnCtx) havocLoop(fr *Frame, h *ssa.BasicBlock, st *State) {
 }
 
 // havocAll forgets the entire heap except allocation monotonicity.
-func (fc *FnCtx) havocAll(st *State) {
+func (fc *FnCtx) havocAll(st *State) { fc.havocAllBut(st, nil) }
+
+// havocAllBut forgets everything except heap names with one of the prefixes.
+func (fc *FnCtx) havocAllBut(st *State, prefixes []string) {
 	old := fc.alloc(st)
 	keep := map[string]string{}
+	var kp []string
+	for p := range fc.immut {
+		kp = append(kp, p)
+	}
+	sort.Strings(kp)
+	kp = append(kp, prefixes...)
 	for _, n := range sortedKeys(st.heap) {
-		for p := range fc.immut {
+		for _, p := range kp {
 			if strings.HasPrefix(n, p) {
 				keep[n] = st.heap[n]
 			}
 		}
 	}
-	// every name, touched or not, gets a new initial value: new epoch.
+	// every other name, touched or not, gets a new initial value: new epoch.
 	fc.nEpoch++
-	st.ep = &epoch{id: fc.nEpoch}
+	st.ep = &epoch{id: fc.nEpoch, keep: kp, parent: st.ep}
 	st.heap = keep
 	fc.havocAllSeen = true
 	nw := fc.alloc(st)
